@@ -415,7 +415,51 @@ func runC13(c *fw.Ctx) {
 				c13CheckTree(c, "dir:"+corpus.Rel(d)+"/"+name, pk, 2)
 				c.Count("packages", 1)
 			}
+			// the same directory as a go/ast package decorated as one node: dst.Inspect reaches the
+			// counterpart of everything ast.Inspect reaches
+			fset := token.NewFileSet()
+			apkgs, err := parser.ParseDir(fset, d, nil, parser.ParseComments)
+			if err != nil {
+				return
+			}
+			for name, ap := range apkgs {
+				c13PackageVsAst(c, "dir:"+corpus.Rel(d)+"/"+name+" [ast.Package]", fset, ap)
+			}
 		})
+	}
+
+	// hand-built go/ast packages whose files carry //line directives (generated code): several files
+	// of a package may claim the same source file name, before or after the package clause
+	if c.Shard == 0 {
+		bodies := []string{"func a() int { return 1 }\n", "type T struct{ X int }\n\nfunc (t T) M() {}\n", "var v = []int{1, 2}\n\nconst k = 3\n"}
+		for mask := 0; mask < 27; mask++ {
+			id := fmt.Sprintf("line-directive-package:%d", mask)
+			c.Case(id, func() {
+				fset := token.NewFileSet()
+				ap := &ast.Package{Name: "p", Files: map[string]*ast.File{}}
+				m := mask
+				for k, b := range bodies {
+					var src string
+					switch m % 3 {
+					case 0:
+						src = "package p\n\n" + b
+					case 1:
+						src = "//line gen.y:1\npackage p\n\n" + b
+					default:
+						src = "package p\n\n//line gen.y:10\n" + b
+					}
+					m /= 3
+					name := fmt.Sprintf("f%d.go", k)
+					af, err := parser.ParseFile(fset, name, src, parser.ParseComments)
+					if err != nil {
+						panic(err)
+					}
+					ap.Files[name] = af
+				}
+				c13PackageVsAst(c, id, fset, ap)
+				c.Nontrivial(id)
+			})
+		}
 	}
 
 	// reflection-built trees: every child present, and each optional child absent in turn
@@ -463,6 +507,54 @@ func runC13(c *fw.Ctx) {
 		}
 	}
 	_ = strings.TrimSpace
+}
+
+// c13PackageVsAst decorates a go/ast package as one node and compares what dst.Inspect reaches with
+// what ast.Inspect reaches (the order of the files of a package is not specified by either walk).
+func c13PackageVsAst(c *fw.Ctx, id string, fset *token.FileSet, ap *ast.Package) {
+	d := decorator.NewDecorator(fset)
+	var dn dst.Node
+	var err error
+	if sig, detail := fw.Try(func() { dn, err = d.DecorateNode(ap) }); sig != "" {
+		c.Violate("decorate-panic", sig, id+": "+detail, "")
+		return
+	}
+	if err != nil {
+		c.Count("inconclusive_package_decoration_error", 1)
+		return
+	}
+	c.Count("ast_packages", 1)
+	reached := map[dst.Node]bool{}
+	nd := 0
+	dst.Inspect(dn, func(n dst.Node) bool {
+		if n != nil {
+			reached[n] = true
+			nd++
+		}
+		return true
+	})
+	na := 0
+	var missing ast.Node
+	ast.Inspect(ap, func(n ast.Node) bool {
+		switch n.(type) {
+		case nil:
+			return false
+		case *ast.CommentGroup, *ast.Comment:
+			return false
+		}
+		na++
+		if missing == nil && !reached[d.Dst.Nodes[n]] {
+			missing = n
+		}
+		return true
+	})
+	if missing != nil {
+		c.Violate("inspect-vs-ast", "inspect-vs-ast:package:unreached:"+refl.TypeName(missing), fmt.Sprintf("%s: ast.Inspect reaches a %s at %s whose dst counterpart dst.Inspect never reaches (ast %d nodes, dst %d)", id, refl.TypeName(missing), fset.Position(missing.Pos()), na, nd), "")
+		return
+	}
+	if na != nd {
+		c.Violate("inspect-vs-ast", "inspect-vs-ast:package:length", fmt.Sprintf("%s: ast.Inspect %d nodes, dst.Inspect %d", id, na, nd), "")
+	}
 }
 
 // optionalChild lists the child fields go/ast documents as "or nil" (transcribed from the go/ast
